@@ -33,6 +33,7 @@ mod graphref;
 mod c16;
 mod c17;
 mod c18;
+mod c19;
 mod c20;
 mod elfgen;
 mod ilgen;
@@ -57,6 +58,7 @@ fn make_check(prop: &str, tier: Tier) -> Option<Box<dyn Check>> {
         "C11" => Box::new(c11::C11::new(tier)),
         "C17" => Box::new(c17::C17::new(tier)),
         "C20" => Box::new(c20::C20::new(tier)),
+        "C19" => Box::new(c19::C19::new(tier)),
         "C18" => Box::new(c18::C18::new(tier)),
         "C12" => Box::new(c12::C12::new(tier)),
         "C13" => Box::new(c13::C13::new(tier)),
